@@ -97,6 +97,8 @@ class Report:
         self.evaluations = 0
         self.tlc_runs = []
         self.known = load_known()
+        self.classes = {}
+        self._vkeys = set()
         self.owns = set()     # clauses of these properties are re-attributed to this check
 
     # -- clause accounting -------------------------------------------------
@@ -120,7 +122,15 @@ class Report:
                 if key not in [k['key'] for k in self.known_hits]:
                     self.known_hits.append({'key': key, 'clause': name, 'what': kf.get('what', what)})
                 return
-        if len(self.violations) < 200:
+        import re
+        cls = (name, re.sub(r'\d+', 'N', str(what))[:110])
+        ent = self.classes.setdefault(cls, {'count': 0, 'example_key': key, 'example': str(what)[:300]})
+        ent['count'] += 1
+        if (name, key) in self._vkeys:
+            return
+        # keep every class visible: at most 40 stored cases per class, 3000 in total
+        if ent['count'] <= 40 and len(self.violations) < 3000:
+            self._vkeys.add((name, key))
             self.violations.append({'clause': name, 'key': key, 'what': what, 'case': case})
 
     def merge_results(self, results):
@@ -178,6 +188,8 @@ class Report:
             'assumptions': self.assumptions,
             'wall_s': round(wall, 2), 'violations': len(uniq),
             'known_findings_hit': self.known_hits,
+            'violation_classes': [{'clause': k[0], 'what': k[1], 'count': v['count'], 'example_key': str(v['example_key'])[:400]}
+                                  for k, v in sorted(self.classes.items(), key=lambda kv: -kv[1]['count'])][:60],
         }
         with open(os.path.join(EVID, self.pid + '.json'), 'w') as f:
             json.dump(ev, f, indent=1, default=str)
@@ -198,6 +210,8 @@ class Report:
                 print('  clause=%s %s' % (v['clause'], str(v['what'])[:300]))
             if len(uniq) > 10:
                 print('  ... and %d more distinct violations' % (len(uniq) - 10))
+            for k, v in sorted(self.classes.items(), key=lambda kv: -kv[1]['count'])[:25]:
+                print('  class x%d: %s | %s' % (v['count'], k[0], k[1]))
             print('%s: %d distinct violation(s); clauses %s' % (
                 self.pid, len(uniq), {k: v for k, v in self.clauses.items() if v[1]}))
             return 1
